@@ -42,6 +42,9 @@ type wireConn struct {
 	// somebody arms on the connection meanwhile expires for the write in flight, which then fails after its first half
 	slow     bool
 	deadline int // number of non-zero SetWriteDeadline calls so far
+	// incoming ciphertext, delivered one piece per socket Read; the arrival of each piece is a scheduling point
+	in     [][]byte
+	remote string
 }
 
 type timeoutError struct{}
@@ -74,10 +77,31 @@ func (f *wireConn) Write(b []byte) (int, error) {
 	f.mu.Unlock()
 	return len(b), nil
 }
-func (f *wireConn) Read(b []byte) (int, error)      { return 0, fmt.Errorf("no read") }
-func (f *wireConn) Close() error                    { return nil }
-func (f *wireConn) LocalAddr() net.Addr             { return addr("10.0.0.1:1") }
-func (f *wireConn) RemoteAddr() net.Addr            { return addr("10.0.0.2:2") }
+func (f *wireConn) Read(b []byte) (int, error) {
+	if f.point != nil {
+		f.point() // the next piece arrives (or the reader is woken) at a moment the scheduler chooses
+	}
+	f.mu.Lock()
+	defer f.mu.Unlock()
+	if len(f.in) == 0 {
+		return 0, timeoutError{}
+	}
+	n := copy(b, f.in[0])
+	if n == len(f.in[0]) {
+		f.in = f.in[1:]
+	} else {
+		f.in[0] = f.in[0][n:]
+	}
+	return n, nil
+}
+func (f *wireConn) Close() error        { return nil }
+func (f *wireConn) LocalAddr() net.Addr { return addr("10.0.0.1:1") }
+func (f *wireConn) RemoteAddr() net.Addr {
+	if f.remote != "" {
+		return addr(f.remote)
+	}
+	return addr("10.0.0.2:2")
+}
 func (f *wireConn) SetDeadline(time.Time) error     { return nil }
 func (f *wireConn) SetReadDeadline(time.Time) error { return nil }
 func (f *wireConn) SetWriteDeadline(t time.Time) error {
@@ -98,6 +122,33 @@ const keepAlive = -2
 // real (not started) hc IP transport; the transport's own notifyListener then writes the EVENT to the subscribed
 // connection. Scenarios containing it use the transport's context and a slow socket.
 const notify = -3
+
+// read as a thread's only "length": the thread is the connection's READER (net/http's goroutine): it reads one
+// incoming two-frame request whose ciphertext arrives in pieces (inside the length field, inside the ciphertext,
+// at the frame boundary). Scenarios containing it use a slow socket, so that writes are in flight while frames
+// are opened and the other way round.
+const read = -4
+
+// otherConn as a thread's only "length": the thread writes a 1500-byte message on ANOTHER connection of the
+// same accessory (own session, own slow socket).
+const otherConn = -5
+
+func has(writers [][]int, kind int) bool {
+	for _, w := range writers {
+		if len(w) == 1 && w[0] == kind {
+			return true
+		}
+	}
+	return false
+}
+
+var secret2 = [32]byte{9, 9, 9, 4, 5, 6}
+
+func requestPlain() []byte {
+	b := payload(9, 9, 1500)
+	copy(b, "PUT /characteristics HTTP/1.1\r\n")
+	return b
+}
 
 func hasNotify(writers [][]int) bool {
 	for _, w := range writers {
@@ -156,6 +207,10 @@ var lastCtx hap.Context
 func setup(conn net.Conn) *hap.Connection {
 	ctx := hap.NewContextForSecuredDevice(nil)
 	lastCtx = ctx
+	return setupOn(ctx, conn, secret)
+}
+
+func setupOn(ctx hap.Context, conn net.Conn, secret [32]byte) *hap.Connection {
 	c := hap.NewConnection(conn, ctx)
 	cs, err := hccrypto.NewSecureSessionFromSharedKey(secret)
 	if err != nil {
@@ -203,7 +258,9 @@ func notifyPayload(sw *accessory.Switch, v bool) []byte {
 }
 
 // judge applies the oracle to a captured wire.
-func judge(wire [][]byte, want [][]byte) (sym, desc string) {
+func judge(wire [][]byte, want [][]byte) (sym, desc string) { return judgeKey(secret, wire, want) }
+
+func judgeKey(secret [32]byte, wire [][]byte, want [][]byte) (sym, desc string) {
 	a2c, _ := refctl.SessionKeys(secret[:])
 	var stream []byte
 	for _, w := range wire {
@@ -315,6 +372,25 @@ func execute(c *fw.Ctx, writers [][]int, prefix []int, bound int) []sched.PointR
 			S.Point(nil)
 		}
 	}
+	var fc2 *wireConn
+	var conn2 *hap.Connection
+	if has(writers, otherConn) {
+		fc.slow = true
+		fc2 = &wireConn{slow: true, point: fc.point, remote: "10.0.0.3:3"}
+		conn2 = setupOn(lastCtx, fc2, secret2)
+	}
+	var reqPlain, reqGot []byte
+	var reqErr error
+	if has(writers, read) {
+		fc.slow = true
+		reqPlain = requestPlain()
+		_, c2a := refctl.SessionKeys(secret[:])
+		var rc uint64
+		ct := refctl.Frames(c2a, &rc, reqPlain)
+		for _, cut := range [][2]int{{0, 1}, {1, 600}, {600, 1042}, {1042, 1044}, {1044, len(ct)}} {
+			fc.in = append(fc.in, ct[cut[0]:cut[1]])
+		}
+	}
 	var want [][]byte
 	var bodies []func()
 	hctx := lastCtx
@@ -322,6 +398,21 @@ func execute(c *fw.Ctx, writers [][]int, prefix []int, bound int) []sched.PointR
 		w, lens := w, lens
 		if len(lens) == 1 && lens[0] == notify {
 			bodies = append(bodies, func() { sw.Switch.On.SetValue(true) })
+			continue
+		}
+		if len(lens) == 1 && lens[0] == read {
+			bodies = append(bodies, func() {
+				buf := make([]byte, 4096)
+				for len(reqGot) < len(reqPlain) && reqErr == nil {
+					n, err := conn.Read(buf)
+					reqGot = append(reqGot, buf[:n]...)
+					reqErr = err
+				}
+			})
+			continue
+		}
+		if len(lens) == 1 && lens[0] == otherConn {
+			bodies = append(bodies, func() { conn2.Write(payload(8, 8, 1500)) })
 			continue
 		}
 		if len(lens) == 1 && lens[0] == keepAlive {
@@ -366,6 +457,14 @@ func execute(c *fw.Ctx, writers [][]int, prefix []int, bound int) []sched.PointR
 	if sym, desc := judge(fc.wire, want); sym != "" {
 		c.Report(sym+"/"+scen, desc, cas)
 	}
+	if fc2 != nil {
+		if sym, desc := judgeKey(secret2, fc2.wire, [][]byte{payload(8, 8, 1500)}); sym != "" {
+			c.Report(sym+"/other-connection/"+scen, "on the other connection: "+desc, cas)
+		}
+	}
+	if reqPlain != nil && (reqErr != nil || !bytes.Equal(reqGot, reqPlain)) {
+		c.Report("incoming-request-damaged/"+scen, fmt.Sprintf("while writers were active the connection's reader did not get the peer's well-formed two-frame request intact: %d of %d bytes, error %v", len(reqGot), len(reqPlain), reqErr), cas)
+	}
 	return out.Points
 }
 
@@ -386,6 +485,10 @@ func scenarios(thorough bool) []scenario {
 		{[][]int{{10}, {20}, {1500}}, -1},
 		{[][]int{{1500}, {notify}}, -1},
 		{[][]int{{300}, {notify}, {40}}, 2},
+		{[][]int{{1500}, {read}}, -1},
+		{[][]int{{300}, {read}, {40}}, 2},
+		{[][]int{{1500}, {otherConn}}, -1},
+		{[][]int{{300}, {otherConn}, {read}}, 2},
 	}
 	if thorough {
 		s = append(s,
@@ -454,7 +557,7 @@ func racePass(c *fw.Ctx) {
 			}
 		}
 		c.Class("race-pass:race")
-		c.Report("data-race", "the race detector reports a data race between concurrent Connection.Write calls at "+site, Case{Writers: [][]int{{-1}}})
+		c.Report("data-race", "the race detector reports a data race between concurrent uses of the connection (writers, its reader, a writer on another connection) at "+site, Case{Writers: [][]int{{-1}}})
 		return
 	}
 	if strings.Contains(s, "ORACLE-FAIL") {
@@ -498,15 +601,48 @@ func FreeRun() {
 				}
 			}(w, ls)
 		}
+		// the connection's reader opens an incoming two-frame request meanwhile, and another connection of the
+		// same accessory is written to
+		reqPlain := requestPlain()
+		_, c2a := refctl.SessionKeys(secret[:])
+		var rc uint64
+		ct := refctl.Frames(c2a, &rc, reqPlain)
+		fc.in = [][]byte{ct[:1], ct[1:600], ct[600:1042], ct[1042:1044], ct[1044:]}
+		var reqGot []byte
+		var reqErr error
+		wg.Add(1)
+		go func() {
+			defer wg.Done()
+			buf := make([]byte, 4096)
+			for len(reqGot) < len(reqPlain) && reqErr == nil {
+				n, err := conn.Read(buf)
+				reqGot = append(reqGot, buf[:n]...)
+				reqErr = err
+			}
+		}()
+		fc2 := &wireConn{remote: "10.0.0.3:3"}
+		conn2 := setupOn(lastCtx, fc2, secret2)
+		wg.Add(1)
+		go func() {
+			defer wg.Done()
+			conn2.Write(payload(8, 8, 1500))
+		}()
 		wg.Wait()
-		if sym, desc := judge(fc.wire, want); sym != "" {
+		sym, desc := judge(fc.wire, want)
+		if sym == "" {
+			sym, desc = judgeKey(secret2, fc2.wire, [][]byte{payload(8, 8, 1500)})
+		}
+		if sym == "" && (reqErr != nil || !bytes.Equal(reqGot, reqPlain)) {
+			sym, desc = "incoming-request-damaged", fmt.Sprintf("%d of %d bytes, error %v", len(reqGot), len(reqPlain), reqErr)
+		}
+		if sym != "" {
 			fails++
 			if fails == 1 {
 				fmt.Println("ORACLE-FAIL", sym, desc)
 			}
 		}
 	}
-	fmt.Printf("free-running: %d iterations of 4 writers x 2 writes, %d oracle failures\n", iters, fails)
+	fmt.Printf("free-running: %d iterations of 4 writers x 2 writes + the reader + a writer on another connection, %d oracle failures\n", iters, fails)
 }
 
 func replay(c *fw.Ctx, raw json.RawMessage) {
@@ -524,12 +660,12 @@ func init() {
 	fw.Register(&fw.Check{
 		ID:    "C08",
 		Level: "model_checking",
-		Rule:  "stateless exploration of goroutine interleavings under a cooperative scheduler with iterative preemption bounding: 2–5 writer goroutines × 1–3 Connection.Write calls with one- and two-frame payloads, keep-alive rounds sent by hap.KeepAlive itself, and EVENTs written by the notifyListener of a real (not started) IP transport after an application value change, over a socket that stalls in the middle of every write (a write deadline armed meanwhile expires for the write in flight), on a real hap.Connection with a real secure session; scheduling points = every Lock of a sync.Mutex/RWMutex and every Wait of a sync.Cond in packages hap and crypto (import rewritten to a shim through go build -overlay) and every socket Write; per schedule the captured wire must decrypt front to back with counters in arrival order (reference AEAD) and be a sequence of whole payloads. 2-writer scenarios unbounded, larger ones preemption bound 2 (thorough: unbounded / 3). Plus a free-running pass of the same bodies in a -race build. distinct_nontrivial = distinct (scenario, wire record order) outcomes — more than one per scenario means writers really collided",
+		Rule:  "stateless exploration of goroutine interleavings under a cooperative scheduler with iterative preemption bounding: 2–5 writer goroutines × 1–3 Connection.Write calls with one- and two-frame payloads, keep-alive rounds sent by hap.KeepAlive itself, and EVENTs written by the notifyListener of a real (not started) IP transport after an application value change, over a socket that stalls in the middle of every write (a write deadline armed meanwhile expires for the write in flight), the connection's own reader opening an incoming two-frame request whose ciphertext arrives in five pieces (each arrival a scheduling point) while writes are in flight, and a writer on another connection of the same accessory, on a real hap.Connection with a real secure session; scheduling points = every Lock of a sync.Mutex/RWMutex and every Wait of a sync.Cond in packages hap and crypto (import rewritten to a shim through go build -overlay) and every socket Write; per schedule the captured wire must decrypt front to back with counters in arrival order (reference AEAD) and be a sequence of whole payloads (the same for the other connection's wire), and the reader must get the request intact. 2-writer scenarios unbounded, larger ones preemption bound 2 (thorough: unbounded / 3). Plus a free-running pass of the same bodies in a -race build. distinct_nontrivial = distinct (scenario, wire record order) outcomes — more than one per scenario means writers really collided",
 		Shards: func(t string) int {
 			if t == "thorough" {
 				return 16
 			}
-			return 6
+			return 8
 		},
 		Run:    run,
 		Replay: replay,
